@@ -118,6 +118,8 @@ def default_judge(prog, workdir, O):
 def handle_violation(chk, pid_kind, prog, cls, res, O, workdir, judge_fn=default_judge, reduce_budget=120, extra_sig=None):
     """reduce, compute signature, report"""
     try:
+        if os.environ.get("VERIF_REDUCE_BUDGET"):      # development knob (seed matrix): smaller reduction budget, the verdict is unaffected
+            reduce_budget = int(os.environ["VERIF_REDUCE_BUDGET"])
         q, ntests = reduce_witness(prog, cls, os.path.join(workdir, "reduce"), O, judge_fn, max_tests=reduce_budget)
     except Exception as e:  # the reducer must never mask the violation
         q, ntests = prog, 0
